@@ -38,12 +38,28 @@ type Obligation struct {
 
 // VerifyFunc generates the obligations of one function under contract.
 func (e *Engine) VerifyFunc(fn *ssa.Function, spec *FuncSpec, prop string) (err error) {
+	gs := spec.groups()
+	if len(gs) == 0 {
+		return e.verifyFuncGroup(fn, spec, prop, "", true)
+	}
+	for i, g := range gs {
+		if err := e.verifyFuncGroup(fn, spec, prop, g, i == 0); err != nil {
+			return err
+		}
+	}
+	return nil
+}
+
+func (e *Engine) verifyFuncGroup(fn *ssa.Function, spec *FuncSpec, prop, group string, primary bool) (err error) {
+	// fresh names restart for every function so that the queries of a function do not depend
+	// on which other functions are verified in the same run (reproducible solver behaviour)
+	e.nfresh = 1000000
 	if spec.ArithSet {
 		e.ar.Mode = spec.Arith
 	} else {
 		e.ar.Mode = ModeBV
 	}
-	x := &Exec{e: e, top: fn, spec: spec, qname: e.qualName(fn), prop: prop, hasAssign: true}
+	x := &Exec{e: e, top: fn, spec: spec, qname: e.qualName(fn), prop: prop, hasAssign: true, group: group, primary: primary}
 	defer func() {
 		if r := recover(); r != nil {
 			switch v := r.(type) {
@@ -102,12 +118,16 @@ func (e *Engine) VerifyFunc(fn *ssa.Function, spec *FuncSpec, prop string) (err 
 	}
 	x.letVars = env.vars
 	for _, cl := range spec.Requires {
-		st.assume(x.evalClause(st, env, cl, spec))
+		if x.active(cl) {
+			st.assume(x.evalClause(st, env, cl, spec))
+		}
 	}
 	x.oldHeap = copyHeap(st.heap)
 	env.old = x.oldHeap
 	for _, h := range spec.Hints {
-		x.applyHint(st, env, h)
+		if x.active(h) {
+			x.applyHint(st, env, h)
+		}
 	}
 	for _, a := range spec.Assigns {
 		x.assignLocs = append(x.assignLocs, x.evalAssignTarget(env, a, spec)...)
@@ -116,11 +136,13 @@ func (e *Engine) VerifyFunc(fn *ssa.Function, spec *FuncSpec, prop string) (err 
 		x.measure0 = x.evalTerm(st, env, spec.Decreases)
 	}
 	// vacuity guard: the precondition must be satisfiable
+	if primary {
 	cov := &Obligation{Name: x.qname + "/cover-pre", Func: x.qname, Kind: "cover", Text: "precondition and global assumptions are satisfiable", Mode: e.ar.Mode,
 		Goal: False, Assume: st.pc[:len(st.pc):len(st.pc)], Cover: true}
 	e.mu.Lock()
 	e.obligations = append(e.obligations, cov)
 	e.mu.Unlock()
+	}
 
 	if len(fn.Blocks) == 0 {
 		return fmt.Errorf("%s: no body", x.qname)
@@ -258,7 +280,7 @@ func (x *Exec) checkPost(st *State, ret *ssa.Return, rs []Val) {
 	}
 	env := &Env{x: x, st: st, heap: st.heap, old: x.oldHeap, vars: vars, ovars: ov, pkg: x.specPkg(x.spec)}
 	for _, c := range x.spec.Ensures {
-		if !x.wantClause(c) {
+		if !x.wantClause(c) || !x.active(c) || (c.group() == "" && !x.primary) {
 			continue
 		}
 		g := x.evalClause(st, env, c, x.spec)
@@ -540,7 +562,7 @@ func (x *Exec) havocLoc(st *State, loc assignLoc) {
 			m := st.heapGet(name, e.memSort(l.S))
 			old := SelectD(m, loc.reg)
 			na := e.fresh("hv", old.S)
-			kv := Var("k!hv", e.ar.I())
+			kv := Var("$b_khv", e.ar.I())
 			in := And(e.ar.Cmp(token.LEQ, tInt, loc.lo, kv), e.ar.Cmp(token.LSS, tInt, kv, loc.hi))
 			sel := Select(na, kv)
 			st.assume(Forall([]*Term{kv}, Implies(Not(in), Eq(sel, Select(old, kv))), sel))
@@ -605,13 +627,21 @@ func (x *Exec) loopHavocHeap(st *State, fr *Frame, h *loopHdr) {
 		s := written[n]
 		old := st.heapGet(n, s)
 		nv := st.heapHavoc(n, s)
-		r := Var("r!lf", e.ar.I())
+		r := Var("$b_rlf", e.ar.I())
 		switch {
 		case n == "Alloc":
 			st.assume(Forall([]*Term{r}, Implies(Select(old, r), Select(nv, r)), Select(nv, r)))
 		case strings.HasPrefix(n, "Mem_"):
 			unchanged := And(st.isAllocIn(x.oldHeap, r), Not(x.regionInAssigns(r, n)))
 			st.assume(Forall([]*Term{r}, Implies(unchanged, Eq(Select(nv, r), Select(old, r))), Select(nv, r)))
+		case strings.HasPrefix(n, "Gh_"):
+			var cs []*Term
+			for _, l := range x.assignLocs {
+				if l.kind == "ghost" && strings.HasPrefix(n, "Gh_"+l.text[1:]+"_") {
+					cs = append(cs, Eq(l.ref, r))
+				}
+			}
+			st.assume(Forall([]*Term{r}, Implies(Not(Or(cs...)), Eq(Select(nv, r), Select(old, r))), Select(nv, r)))
 		case strings.HasPrefix(n, "Fld_"):
 			unchanged := And(st.isAllocIn(x.oldHeap, r), Not(x.refInAssigns(r, n)))
 			st.assume(Forall([]*Term{r}, Implies(unchanged, Eq(Select(nv, r), Select(old, r))), Select(nv, r)))
@@ -987,6 +1017,16 @@ func (x *Exec) assignTargetMaps(c *Clause, fn *ssa.Function, spec *FuncSpec, sig
 		}
 		return out, true
 	case ESel:
+		if strings.HasPrefix(t.Sel, "$") {
+			gt := e.ghostType(t.Sel)
+			if gt == nil {
+				return nil, false
+			}
+			for _, l := range e.leaves(gt) {
+				out["Gh_"+t.Sel[1:]+"_"+l.Name] = e.fldSort(l.S)
+			}
+			return out, true
+		}
 		bt := typeOf(t.X)
 		if bt == nil {
 			return nil, false
@@ -1089,6 +1129,8 @@ func (x *Exec) applyHint(st *State, env *Env, h *Clause) {
 	for _, c := range spec.Ensures {
 		post = append(post, x.evalClause(st, lenv, c, spec))
 	}
-	st.assume(Implies(And(pre...), And(post...)))
+	ht := Implies(And(pre...), And(post...))
+	x.e.hintTerms[ht] = true
+	st.assume(ht)
 	x.e.lemmasUsed[x.e.qualName(fn)] = true
 }
